@@ -59,7 +59,8 @@ THEOREMS = [
     'C14.cartToRel_z_of_flat', 'C14.vacuum_rel_cut_c', 'C14.vacuum_rel_cut_bounds', 'C14.vacuum_inplane_c',
     # counts and smallest sizes: the iterfaultmap mesh for every pair of counts, the one-layer rotated cell
     'C14.faultMesh_length', 'C14.mem_faultMesh', 'C14.faultMesh_unit', 'C14.faultMesh_nodup', 'C14.iterFaultMap_mesh',
-    'C14.iterFaultMap_length', 'C14.shifts_single_layer', 'C14.single_layer_centered',
+    'C14.iterFaultMap_length', 'C14.shifts_single_layer', 'C14.single_layer_centered', 'C14.cutMult_exact',
+    'C14.cutMult_minwidth',
 ]
 PARTIAL = {
     'isclose_as_exact_zero': 'np.isclose(x, 0) / np.isclose(mag, b_mag) / the arccos-based angle comparisons are modelled '
@@ -903,8 +904,8 @@ def _fs_cases(ctx, exact):
         crd = crystal_list(a, c, False)
         nm, ucell, st = rng.choice(crd[:1] + crd[2:4])            # fcc / diamond / L12
         cases.append((nm, ucell, st, _permuted(rng, (2, 2, 1)), rng.choice(CUTS)))
-        for nm, ucell, st in rng.sample(crd, ctx.n(4, 11)):
-            for _ in range(ctx.n(1, 4)):
+        for nm, ucell, st in rng.sample(crd, ctx.n(4, 8)):
+            for _ in range(ctx.n(1, 3)):
                 hkl = high_plane(rng)
                 if _is_hex(nm) and rng.random() < 0.5:
                     hkl = (hkl[0], hkl[1], -(hkl[0] + hkl[1]), hkl[2])
@@ -2393,7 +2394,7 @@ def _run_directed(ctx, mode):
 def _correspond_histories(ctx):
     _run_directed(ctx, 'model')
     rng = random.Random(ctx.seed * 104729 + 1414)
-    specs = _hist_specs(ctx, rng, ctx.n(160, 800))
+    specs = _hist_specs(ctx, rng, ctx.n(160, 680))
     nf = nops = 0
     for spec in specs:
         try:
@@ -2411,7 +2412,7 @@ def _correspond_histories(ctx):
 def _search_histories(ctx, broken):
     _run_directed(ctx, 'oracle')
     rng = random.Random(ctx.seed * 15485863 + 1415)
-    specs = _hist_specs(ctx, rng, ctx.n(240, 1200) * (2 if broken else 1))
+    specs = _hist_specs(ctx, rng, ctx.n(240, 1000) * (2 if broken else 1))
     nf = nops = 0
     for spec in specs:
         try:
@@ -2938,7 +2939,7 @@ def search(ctx, broken):
     finally:
         _close_pool()
     # (B)+(C) FreeSurface / StackingFault systems
-    specs = _fs_specs(ctx, rng, ctx.n(36, 400) * (2 if broken else 1))
+    specs = _fs_specs(ctx, rng, ctx.n(36, 320) * (2 if broken else 1))
     nf = nsys = 0
     for spec in specs:
         ctx.stats.case('oracle:FreeSurface:' + _kind(spec['crystal']),
